@@ -462,6 +462,38 @@ def judge_symlinked_config_folder(rec, rnd, tmp, k, log):
     shutil.rmtree(root, ignore_errors=True)
 
 
+def judge_symlinked_rules_csv(rec, rnd, tmp, k, log):
+    """The legacy merchant_categories.csv of the budget is a symbolic link to a file shared between budgets: a migration of THIS budget renames / replaces
+    what is in this budget's config folder; the shared file stays where and what it is."""
+    root = os.path.join(tmp, 'symcsv%d' % k)
+    cfg = os.path.join(root, 'budget', 'config')
+    os.makedirs(cfg)
+    os.makedirs(os.path.join(root, 'budget', 'data'))
+    os.makedirs(os.path.join(root, 'shared'))
+    with open(os.path.join(root, 'shared', 'rules.csv'), 'w') as f:
+        f.write('Pattern,Merchant,Category,Subcategory\nNETFLIX,Netflix,Subscriptions,Streaming\nCOSTCO,Costco,Food,Grocery\n')
+    os.symlink(os.path.join('..', '..', 'shared', 'rules.csv'), os.path.join(cfg, 'merchant_categories.csv'))
+    with open(os.path.join(cfg, 'settings.yaml'), 'w') as f:
+        f.write('year: 2025\ndata_sources:\n  - name: Card\n    file: data/card.csv\n    format: "{date:%Y-%m-%d},{description},{amount}"\n')
+    with open(os.path.join(root, 'budget', 'data', 'card.csv'), 'w') as f:
+        f.write('Date,Description,Amount\n2025-01-03,NETFLIX.COM,15.99\n')
+    shared_before = open(os.path.join(root, 'shared', 'rules.csv'), 'rb').read()
+    args = rnd.choice([['up', cfg, '--migrate', '-q'], ['CWD:' + os.path.join(root, 'budget'), 'up', '--migrate', '--format', 'summary'], ['CWD:' + os.path.join(root, 'budget'), 'init']])
+    p, effects = run_cmd(root, root, args, log)
+    rec.case()
+    rec.count('commands_run')
+    rec.count('migrate_runs')
+    rec.count('symlinked_rules_csv_migrations')
+    case = {'kind': 'symlinked-rules-csv', 'command': [a.replace(root, '<root>') for a in args], 'exit': p.returncode}
+    sp = os.path.join(root, 'shared', 'rules.csv')
+    if not os.path.exists(sp) or open(sp, 'rb').read() != shared_before:
+        rec.violation('migrate-touches-file-outside-the-budget', f'{" ".join(case["command"][:3])}: the shared rules file the budget\'s merchant_categories.csv links to '
+                      + ('is gone' if not os.path.exists(sp) else 'changed') + f'; shared/ now holds {sorted(os.listdir(os.path.join(root, "shared")))}', case)
+    elif sorted(os.listdir(os.path.join(root, 'shared'))) != ['rules.csv']:
+        rec.violation('migrate-writes-outside-the-budget', f'shared/ now holds {sorted(os.listdir(os.path.join(root, "shared")))}', case)
+    shutil.rmtree(root, ignore_errors=True)
+
+
 def judge_init_sectionless_rules(rec, rnd, tmp, k, log):
     """A budget with rules in the legacy CSV AND a merchants.rules the user wrote that holds no [section] (transforms, variables, notes): `tally init` creates
     what is missing and touches neither of the two."""
@@ -510,6 +542,7 @@ def run(rec, shard, nshards, t):
         for k in range(max(1, (8 if t == 'quick' else 120) // nshards)):
             judge_init_sectionless_rules(rec, rnd, tmp, k, log)
             judge_symlinked_config_folder(rec, rnd, tmp, k, log)
+            judge_symlinked_rules_csv(rec, rnd, tmp, k, log)
         if shard == 0:
             rec.sample({'example_sequence': ['up', 'discover --format json', 'init', 'up --migrate -q'], 'monitors': ['sha256 tree snapshot', 'audit-hook effect log']})
     finally:
@@ -529,6 +562,7 @@ def replay(rec, case):
             judge_odd_config_name(rec, rnd, tmp, k, log)
             judge_init_sectionless_rules(rec, rnd, tmp, k, log)
             judge_symlinked_config_folder(rec, rnd, tmp, k, log)
+            judge_symlinked_rules_csv(rec, rnd, tmp, k, log)
     finally:
         shutil.rmtree(tmp, ignore_errors=True)
         if os.path.exists(log):
